@@ -58,7 +58,8 @@ META = {
     "apps step by step against the model from snapshots of the real registry.",
     "level_note": "partial: cryptographic strength of XChaCha20-Poly1305 is a premise (checked empirically on the mutation set); the version "
     "byte of the envelope is not authenticated and stream-state tokens share key and AAD, so 'sealed by a key holder as a session token' "
-    "is part of the premise; base64 and str.strip are modelled from CPython 3.13 and validated by correspondence; time is integral.",
+    "is part of the premise; base64 and str.strip are modelled from CPython 3.13 and validated by correspondence (decode . encode = id is a theorem "
+    "for all byte strings); time is integral.",
     "design_ref": "§5 C25",
 }
 
@@ -415,7 +416,7 @@ THEOREMS = {
     "P_C25": [
         "C25_aad_injective", "C25_plaintext_exact", "C25_access_iff_same_worker_identity_live", "C25_other_presentations_session_lost_no_dispatch",
         "C25_delete_204_iff_live_owned", "C25_delete_otherwise_indistinguishable", "C25_closed_evicted_expired_stay_lost", "C25_registry_only_from_opens",
-        "C25_own_token_accepted_iff_codec_roundtrips",
+        "C25_own_token_accepted_iff_codec_roundtrips", "C25_armour_roundtrip",
     ],
     "T_StickyTok": ["constants_tie", "layouts_tie", "messages_tie", "C25_source_plaintext_decodable", "C25_source_aad_injective"],
     "L_StickyTokCodecTie": ["codec_tie", "C25_source_access_iff"],
